@@ -742,3 +742,54 @@ def gen_plan(run_seed, tier='quick', env=None, kinds=None, shape=None):
                 hist=env_side(rng, perturbed, 'hist'),
                 orac=env_side(rng, perturbed, 'orac'),
                 disk=disk, tasks=tasks, schedule=sched)
+
+
+# ------------------------------------------------------------ coverage floor
+
+FLOOR_KINDS = [None] + LOAD_KINDS
+FLOOR_ENVS = ['free', 'ideal', 'real']
+
+
+def floor_plans(base_seed, tier='quick'):
+    """One short API world and one short sweep world per {load kind} x
+    {free space, ideal ground, real ground}: every frequency-dependent
+    mechanism is exercised with a frequency change and both fields even if
+    the random draw is unlucky."""
+    plans = []
+    i = 0
+    for kind in FLOOR_KINDS:
+        for env in FLOOR_ENVS:
+            seed = base_seed * 1000003 + 900000 + i
+            i += 1
+            rng = random.Random(seed)
+            e = env if env != 'real' else rng.choice(['real1', 'real2', 'real3'])
+            kinds = [kind] if kind else []
+            m = gen_model(rng, env=e, kinds=kinds)
+            pool, probes = gen_pool(rng, m, k=2)
+            far = gen_far(rng)
+            far2 = gen_far(rng)
+            near = gen_near(rng, m)
+            ops = [['OBS_REPORT', []], ['COMPUTE'], ['FAR', 0], ['NEAR', 0], ['OBS_NUM'],
+                   ['SET_F', 1], ['COMPUTE'], ['NEAR', 0], ['FAR', 1], ['FAR', 0], ['OBS_NUM'],
+                   ['OBS_REPORT', ['far-field', 'near-field']], ['COMPUTE'], ['OBS_NUM'],
+                   ['SET_F', 0], ['COMPUTE'], ['FAR', 0], ['OBS_NUM'],
+                   ['OBS_REPORT', ['far-field', 'far-field-absolute']], ['OBS_CMDLINE']]
+            api = dict(kind='api', builder='cli', argv=m.argv(), pool=pool[:2], fars=[far, far2],
+                       nears=[near], ops=ops, template=m.template, env=m.env,
+                       features=sorted(set(m.features)), probes=probes,
+                       npulses=m.min_pulses() + 2 * len(m.geo))
+            argv = ['-f', repr(pool[0])] + m.argv() + field_args(rng, m, force=['far-field', 'near-field'])
+            argv += ['--output-cmdline', 'floor.txt']
+            inc = float(repr(round(pool[1] - pool[0], 6)))
+            cli = dict(kind='cli', ops=[['RUN', list(argv)], ['SWEEP', list(argv), inc, 2],
+                                        ['RUN_BAD', ['--excitation-pulse=99']],
+                                        ['RUN', list(argv)], ['SWEEP', list(argv), inc, 3 if pool[0] + 2 * inc > 0.2 else 2],
+                                        ['RUN', list(argv)]],
+                       template=m.template, env=m.env, features=sorted(set(m.features)),
+                       probes=probes, npulses=api['npulses'])
+            for t in (api, cli):
+                plans.append(dict(version=1, run_seed=seed, tier=tier, config='perturbed', floor=True,
+                                  hist=env_side(rng, True, 'hist'), orac=env_side(rng, True, 'orac'),
+                                  disk={'floor.txt': 'STALE ' * 500} if t is cli else {},
+                                  tasks=[t], schedule=[0] * len(t['ops'])))
+    return plans
